@@ -1,5 +1,5 @@
 import RsModel.Lemmas.Lines
-import RsModel.Props.C19
+import RsModel.Lemmas.CharStarts
 /-! # the map-driven splitters reassemble the text, for ANY map (C01) -/
 namespace Rs
 
@@ -17,7 +17,7 @@ theorem cpos_le (ln : Text) (a : Nat) : cpos ln a ≤ ln.length := by
 theorem cpos_mono (ln : Text) (a b : Nat) (h : a ≤ b) : cpos ln a ≤ cpos ln b := by
   rcases Nat.eq_or_lt_of_le h with rfl | hlt
   · exact Nat.le_refl _
-  · exact (c19_substring_range ln a b hlt).1
+  · exact (substring_range ln a b hlt).1
 
 theorem charStartsFrom_length_le : ∀ (t : Text) (i : Nat), (charStartsFrom i t).length ≤ t.length := by
   intro t; induction t with
